@@ -192,6 +192,23 @@ func cmdCheck(args []string) int {
 	outDir := filepath.Join(verifRoot, "out", id, *tier)
 	os.RemoveAll(outDir)
 	solveAll(jobs, prelude, filepath.Join(outDir, "vc"), timeout, seed, runtime.NumCPU())
+	// an obligation that was discharged on the reference tree and now times out is retried on its own, with three times
+	// the budget and a quiet machine, before it counts as failed (solver time varies with load; a refutation does not)
+	{
+		bl := loadBaseline(id)
+		var again []*job
+		for _, j := range jobs {
+			if !j.obl.Smoke && j.res.Status == "unknown" && bl[j.obl.Name] {
+				again = append(again, j)
+			}
+		}
+		if len(again) > 0 && len(again) <= 12 {
+			for _, j := range again {
+				j.queries = 0
+			}
+			solveAll(again, prelude, filepath.Join(outDir, "vc_retry"), timeout*3, seed+1, 4)
+		}
+	}
 
 	baseline := loadBaseline(id)
 	known := loadKnown()
